@@ -194,6 +194,11 @@ def _cases_R(tier):
         for seq in itertools.product("GSDFgsdte", repeat=n):
             if any(c in "gsdte" for c in seq):
                 yield ("R", "".join(seq))
+    # an __init__ assigning self.p (which goes through the property) anywhere between the accessors
+    for n in range(2, 5):
+        for seq in itertools.product("GSDi", repeat=n):  # (no plain def: an instance attribute displacing a method is Griffe's own tie-break, not CPython's class-level view)
+            if "i" in seq and any(c in "GSD" for c in seq):
+                yield ("R", "".join(seq))
 
 
 def all_cases(tier):
@@ -454,6 +459,8 @@ def _run_R(griffe, acc, case):
             lines += ["    @ns.ident", "    @p.setter", f"    def p(self, v{i}): ..."]
         elif ch == "d":
             lines += ["    @ns.ident", "    @p.deleter", f"    def p(self): return {i}"]
+        elif ch == "i":
+            lines += [f"    def __init__(self, v{i}=0):", f"        self.p = v{i}"]
         elif ch == "t":
             lines += ["    @p.setter", "    @ns.ident", f"    def p(self, v{i}): ..."]
         elif ch == "e":
